@@ -53,8 +53,120 @@ def handle : List Sx → Sx
     | some xs, some s => Sx.ok (Sx.ofInt (sumF xs s))
     | _, _ => Sx.bad
   | _ => Sx.bad
+/-! attribute paths: `(attr <op> <undefined kind> <default> <attribute> <items> <extra>…)` -/
+
+partial def decVal : Sx → Option Val
+  | .list [.atom "i", n] => n.toInt?.map Val.int
+  | .list [.atom "s", .str s] => some (.str s)
+  | .list [.atom "n"] => some .none
+  | .list (.atom "d" :: kvs) => (Sx.mapM? decKV kvs).map Val.dict
+  | .list (.atom "o" :: kvs) => (Sx.mapM? decKV kvs).map Val.obj
+  | .list (.atom "l" :: xs) => (Sx.mapM? decVal xs).map Val.list
+  | _ => none
+where decKV : Sx → Option (String × Val)
+  | .list [.str k, v] => (decVal v).map fun w => (k, w)
+  | _ => none
+
+partial def encVal : Val → Sx
+  | .int n => .list [.atom "i", Sx.ofInt n]
+  | .str s => .list [.atom "s", .str s]
+  | .none => .list [.atom "n"]
+  | .dict kvs => .list (.atom "d" :: kvs.map fun (k, v) => .list [.str k, encVal v])
+  | .obj kvs => .list (.atom "o" :: kvs.map fun (k, v) => .list [.str k, encVal v])
+  | .list xs => .list (.atom "l" :: xs.map encVal)
+
+def encRes : Res → Sx
+  | .val v => .list [.atom "val", encVal v]
+  | .undef => .atom "undef"
+  | .err => .atom "err"
+
+def encPart : Part → Sx
+  | .name s => .list [.atom "name", .str s]
+  | .idx n => .list [.atom "idx", Sx.ofNat n]
+
+def decDefault : Sx → Option (Option Val)
+  | .atom "nodefault" => some none
+  | x => (decVal x).map some
+
+/-- the attribute argument: a string (dotted path), an integer, or None -/
+def decAttr : Sx → Option (List Part)
+  | .list [.atom "s", .str a] => some (prepareParts a)
+  | .list [.atom "i", n] => n.toNat?.map fun k => [Part.idx k]
+  | .atom "none" => some []
+  | _ => none
+
+/-- `make_multi_attrgetter`: comma separated paths -/
+def decMultiAttr : Sx → Option (List (List Part))
+  | .list [.atom "s", .str a] => some ((a.splitOn ",").map prepareParts)
+  | .list [.atom "i", n] => n.toNat?.map fun k => [[Part.idx k]]
+  | .atom "none" => some [[]]
+  | _ => none
+
+def decUm : Sx → Option (Bool × Bool)      -- (chain, strict)
+  | .atom "default" => some (false, false)
+  | .atom "chainable" => some (true, false)
+  | .atom "strict" => some (false, true)
+  | _ => none
+
+def encOut {α : Type} (f : α → Sx) : Out α → Sx
+  | .ok a => Sx.ok (f a)
+  | .raised => Sx.err "raised"
+  | .oom => Sx.oom
+
+def encOptNat : Option Nat → Sx
+  | some n => Sx.ofNat n
+  | none => .atom "none"
+
+def handleAttr : List Sx → Sx
+  | [.atom "parts", a] =>
+    match decMultiAttr a with
+    | some cols => Sx.ok (.list (cols.map fun c => .list (c.map encPart)))
+    | none => Sx.bad
+  | .atom op :: um :: d :: a :: .list items :: extra =>
+    match decUm um, decDefault d, Sx.mapM? decVal items with
+    | some (chain, strict), some d, some items =>
+      match op, decAttr a, extra with
+      | "get", some ps, [post] =>
+        match post.toBool? with
+        | some post => Sx.ok (.list (items.map fun it => encRes (attrget chain d post ps it)))
+        | none => Sx.bad
+      | "map", some ps, [] => encOut (fun rs => .list (rs.map encRes)) (mapAttr chain d ps items)
+      | "groupby", some ps, [cs] =>
+        match cs.toBool? with
+        | some cs => encOut (fun gs => .list (gs.map fun g =>
+            .list [match g.head? with
+                   | some i => encRes (attrget chain d false ps (items.getD i .none))
+                   | none => .atom "undef", Sx.ofNats g])) (groupbyAttr chain d (!cs) ps items)
+        | none => Sx.bad
+      | "unique", some ps, [cs] =>
+        match cs.toBool? with
+        | some cs => encOut Sx.ofNats (uniqueAttr chain (!cs) ps items)
+        | none => Sx.bad
+      | "sort", _, [cs, rev] =>
+        match decMultiAttr a, cs.toBool?, rev.toBool? with
+        | some cols, some cs, some rev => encOut Sx.ofNats (sortMultiAttr chain (!cs) rev cols items)
+        | _, _, _ => Sx.bad
+      | "min", some ps, [cs] =>
+        match cs.toBool? with
+        | some cs => encOut encOptNat (minAttr chain (!cs) ps items)
+        | none => Sx.bad
+      | "max", some ps, [cs] =>
+        match cs.toBool? with
+        | some cs => encOut encOptNat (maxAttr chain (!cs) ps items)
+        | none => Sx.bad
+      | "sum", some ps, [start] =>
+        match start.toInt? with
+        | some st => encOut Sx.ofInt (sumAttr chain ps st items)
+        | none => Sx.bad
+      | "join", some ps, [.str sep] => encOut Sx.str (joinAttr chain strict ps sep items)
+      | "selectattr", some ps, [] => encOut Sx.ofNats (selectAttr chain strict true ps items)
+      | "rejectattr", some ps, [] => encOut Sx.ofNats (selectAttr chain strict false ps items)
+      | _, _, _ => Sx.bad
+    | _, _, _ => Sx.bad
+  | _ => Sx.bad
+
 /-- request names served by this module (collected into `JinjaV.Wire.All` by tools/gen_wire_all.py) -/
 def handlers : List (String × (List Sx → Sx)) :=
-  [("filt", handle)]
+  [("filt", handle), ("attr", handleAttr)]
 
 end JinjaV.Wire.FiltColl
